@@ -9,6 +9,14 @@ CHECKS = {
          "DESIGN.md §3 C01",
          "Held on every executed case: all single-bit mutants of header, TD body, attestation key, QE report and auth data of 4+ accepted quotes must be rejected; ~45 structured forgeries that break exactly one link while everything else is re-signed with keys the harness owns must be rejected at 3 option levels through raw and message entry forms (each derived from a twin the library accepted); for signature/chain flips and random mutants 'accepted => reference says authentic'. Exhaustive only over the stated bit/class space; sound up to ECDSA unforgeability.",
          "Trusts crypto/ecdsa, crypto/x509, encoding/pem. A forged quote needing a signature the harness cannot make (2^-128) is out of reach."),
+ "C02": ("exploration", "runtime monitoring: must-reject / must-accept oracles + independent path predicate over generated look-alike PKIs, role-confusion chains and root-of-trust configurations",
+         "DESIGN.md §3 C02",
+         "Held on every executed case: quotes that are perfectly self-consistent under a look-alike PKI (identical subject names, even identical serial and key identifier) are rejected under the configured pool; every single-element look-alike substitution and every role-confusion chain whose QE report is re-signed by the substituted certificate's key is rejected; single non-root anchors listed by the caller are honoured; every subset of 3 PKIs as bundle files / inline PEM / mixed gives 'accepted iff listed' exactly (empty configuration => embedded Intel root only; empty or non-PEM bundle => error). Sampling over generated PKIs.",
+         "Trusts crypto/x509 chain building and ECDSA; the reference path predicate is deliberately weaker than x509 (no CA / path-length checks), so it can only miss, never falsely accuse."),
+ "C03": ("exploration", "runtime monitoring: scripted collateral endpoint; non-replacement differential (signed-reject member + unsigned accept decoy in every arrangement), must-reject fault classes, reference verifier of the signed member",
+         "DESIGN.md §3 C03",
+         "Held on every executed response: for 11 kinds of genuinely signed but must-reject documents, ~60 arrangements of an unsigned accept-decoy (exact duplicates, every case / Unicode-fold variant of the key, escaped key, duplicate signature keys, evil-first superset) never turn the rejection into an acceptance; every sampled bit flip of the signed member, re-encodings, wrong-message signatures, ~15 foreign / wrong-role / wrong-issuer signer chains, wrong id/version, empty levels, missing members and malformed headers are rejected; all other mutants satisfy 'accepted => an exact-key member verifies under a TCB-signing certificate chaining to the pool and its own values pass'.",
+         "Trusts ECDSA, encoding/json validity checking, and the reference top-level member scanner."),
  "C09": ("exploration", "runtime monitoring: differential comparison of the library parser/serialiser with an independent reference layout parser/serialiser on hostile byte strings and generated messages",
          "DESIGN.md §3 C09",
          "Held on every executed input: same acceptance set as the reference v4 layout parser, every parsed field equal to the reference slice (so a self-consistent offset swap in parser and serialiser is visible), serialise(parse(b)) == b byte for byte, exported part serialisers equal the corresponding input slices, and generated well-formed messages serialise to the reference bytes and parse back proto.Equal. Exhaustive over truncation lengths and size-field boundary grids of the sampled quotes only.",
